@@ -126,12 +126,17 @@ def runTimeCase (id : String) (pipe : SExp) (events : List (List SExp)) (fb : Bo
       | .atom "q" :: .atom "closed" :: _ =>
         s!"{id}.{k} closed={if w.isClosed then "1" else "0"}" :: go w (k + 1) r
       | _ =>
+        -- `rq <event>`: the event, while ANOTHER thread asks the subscription is_closed() during the first delivery (the
+        -- answer is outside the sequential model: the projection of the check blanks it, the oracle reads it)
+        let (ev, sfx) := match ev with
+          | .atom "rq" :: e => (e, " rclosed=?")
+          | _ => (ev, "")
         match parseEv ev with
         | some x =>
           let w0 := w.step x
           let w' := if fb then feedBack 64 w0 (w0.log.drop w.log.length) else w0
           let delta := w'.log.drop w.log.length
-          s!"{id}.{k} {showOut delta} live={w'.sched.liveTasks.length} tm={w'.sched.timers.length} t={w'.sched.now}"
+          s!"{id}.{k} {showOut delta} live={w'.sched.liveTasks.length} tm={w'.sched.timers.length} t={w'.sched.now}{sfx}"
             :: go w' (k + 1) r
         | none => [s!"{id}.{k} BADEV"]
   go { src := src, stages := stages } 0 events
